@@ -74,3 +74,76 @@ def _lex_radix(repo):
             + ", ".join(f"({lean_str(t)}, {lean_str(a)})" for t, a in calls) + "]\n"
             + "def lexPlainParsers : List String := [" + ", ".join(lean_str(t) for _, t in others) + "]")
     return {"prefixes": rows, "default": int(d.group(1)), "int_parsers": calls, "plain_parsers": others}, lean
+
+
+# ------------------------------------------------------------------------------------------------
+# every place a comparison operator is implemented: which Rust operator each arm applies
+_CMP_TXT = r"(==|!=|<=|>=|<|>)"
+_ARM = {"Eq": "eq", "Ne": "ne", "Lt": "lt", "Lte": "le", "Gt": "gt", "Gte": "ge"}
+
+
+def _block_after(src, header_re):
+    return fn_body(src, header_re)
+
+
+@item("C08_COMPARE_ARMS")
+def _compare_arms(repo):
+    rows = []          # (implementation, arm, operator text)
+    vm = _strip_comments(read(repo, "minijinja/src/vm/mod.rs"))
+    # 1. the plain comparison instructions: `Instruction::Lt => op_binop!(<),`
+    found = re.findall(r"Instruction::(Eq|Ne|Lt|Lte|Gt|Gte)\s*=>\s*op_binop!\(\s*%s\s*\)" % _CMP_TXT, vm)
+    if len(found) != 6:
+        raise KeyError("op_binop! arms of the six comparison instructions")
+    mac = fn_body(vm, r"macro_rules!\s*op_binop\s*\{")
+    if not re.search(r"Value::from\(\s*a\s+\$op\s+b\s*\)", mac):
+        raise KeyError("op_binop! no longer computes `a $op b`")
+    rows += [("vm:instruction", _ARM[a], t) for a, t in found]
+    # 2. `Instruction::CompareAndPreserve(op)`: non-final links of a chained comparison
+    body = _block_after(vm, r"Instruction::CompareAndPreserve\(\s*op\s*\)\s*=>\s*\{")
+    inner = fn_body(body, r"let\s+result\s*=\s*match\s+op\s*\{")
+    for arm in ("Eq", "Ne", "Lt", "Lte", "Gt", "Gte"):
+        blk = fn_body(inner, r"CompareOp::%s\s*=>\s*\{" % arm)
+        blk = re.sub(r"ctx_ok!\((?:[^()]|\([^()]*\))*\)\s*;", "", blk).strip()
+        m = re.fullmatch(r"a\s*%s\s*b" % _CMP_TXT, blk)
+        if not m:
+            raise KeyError(f"CompareAndPreserve arm {arm} is not a plain `a OP b`: `{blk[:60]}`")
+        rows.append(("vm:compare_and_preserve", _ARM[arm], m.group(1)))
+    if not re.search(r"stack\.push\(b\);\s*stack\.push\(Value::from\(result\)\);", body):
+        raise KeyError("CompareAndPreserve no longer preserves the right operand below the result")
+    # 3. constant folding in ast.rs: eval_compare (chains) and eval_binop (single comparisons)
+    ast = _strip_comments(read(repo, "minijinja/src/compiler/ast.rs"))
+    for fn, enum, impl in (("eval_compare", "CompareOpKind", "ast:eval_compare"), ("eval_binop", "BinOpKind", "ast:eval_binop")):
+        b = fn_body(ast, r"fn %s\s*\([^)]*\)\s*->\s*Option<Value>\s*\{" % fn)
+        got = re.findall(r"%s::(Eq|Ne|Lt|Lte|Gt|Gte)\s*=>\s*Some\(Value::from\(\s*left\s*%s\s*right\s*\)\)" % (enum, _CMP_TXT), b)
+        if len(got) != 6:
+            raise KeyError(f"comparison arms of ast::{fn}")
+        rows += [(impl, _ARM[a], t) for a, t in got]
+    # 4. the tests `is eq/ne/lt/le/gt/ge`
+    tests = _strip_comments(read(repo, "minijinja/src/tests.rs"))
+    for name in ("eq", "ne", "lt", "le", "gt", "ge"):
+        b = fn_body(tests, r"pub fn is_%s\s*\(\s*value:\s*&Value,\s*other:\s*&Value\s*\)\s*->\s*bool\s*\{" % name)
+        m = re.fullmatch(r"\s*\*value\s*%s\s*\*other\s*" % _CMP_TXT, b)
+        if not m:
+            raise KeyError(f"tests::is_{name} is not a plain `*value OP *other`")
+        rows.append(("tests:is", name, m.group(1)))
+    # 5. names under which those tests are registered
+    dfl = _strip_comments(read(repo, "minijinja/src/defaults.rs"))
+    names = []
+    for name in ("eq", "ne", "lt", "le", "gt", "ge"):
+        if not re.search(r"let\s+is_%s\s*=\s*Value::from_function\(tests::is_%s\)" % (name, name), dfl):
+            raise KeyError(f"registration of tests::is_{name}")
+        for m in re.finditer(r'rv\.insert\("([^"]+)"\.into\(\),\s*is_%s(?:\.clone\(\))?\)' % name, dfl):
+            names.append((m.group(1), name))
+    # 6. the code generator: final link -> plain instruction, other links -> CompareAndPreserve
+    cg = _strip_comments(read(repo, "minijinja/src/compiler/codegen.rs"))
+    cc = fn_body(cg, r"fn compile_compare\s*\(")
+    shape = bool(re.search(r"if\s+idx\s*\+\s*1\s*==\s*c\.ops\.len\(\)\s*\{\s*self\.emit_compare\(op\.op\);\s*\}\s*else\s*\{\s*"
+                           r"self\.add\(Instruction::CompareAndPreserve\(compare_op\(op\.op\)\)\);\s*"
+                           r"cleanup_jumps\.push\(self\.add\(Instruction::JumpIfFalseOrPop\(", cc))
+    if not shape:
+        raise KeyError("compile_compare: final link emit_compare / other links CompareAndPreserve + JumpIfFalseOrPop")
+    lean = ("def compareArms : List (String × String × String) := ["
+            + ", ".join(f"({lean_str(i)}, {lean_str(a)}, {lean_str(t)})" for i, a, t in rows) + "]\n"
+            + "def compareTestNames : List (String × String) := ["
+            + ", ".join(f"({lean_str(n)}, {lean_str(a)})" for n, a in names) + "]")
+    return {"arms": rows, "test_names": names}, lean
